@@ -47,7 +47,12 @@ LEXICAL = [("&#", "9", ";"), ("&#", "0", "65;"), ("&#x", "f", ";"), ("&#x", "0",
            ('<a b="', "c", '">'), ("<!--", "-", "-->"), ("<!--", "x", ""), ("<!DOCTYPE ", "h", ">"), ('<!DOCTYPE html PUBLIC "', "x", '">'), ("</", "a", ">"),
            ("<a ", "b ", ">"), ("<a ", "b=1 ", ">"), ("<svg><![CDATA[", "x", "]]>"), ("<svg><![CDATA[", "]", "]]>"), ("<title>", "&", "</title>"), ("<script>", "<!--", ""),
            ("<textarea>", "\n", ""), ("", "\r\n", ""), ("<p ", 'a="&amp;" ', ">"), ("<a b='&#", "1", "'>"), ("<a b=&", "x", ">"), ("<!DOCTYPE html SYSTEM '", "y", ""),
-           ("&#", "1", ""), ("<a b=\"&#x", "A", ""), ("<p>", "\x00", ""), ("<", "\ud800", ">")]
+           ("&#", "1", ""), ("<a b=\"&#x", "A", ""), ("<p>", "\x00", ""), ("<", "\ud800", ">"),
+           # many DISTINCT formatting elements (identical ones are capped at three) inside a marker scope that is then closed,
+           # many distinct attributes / elements: a counter in the unit
+           ("<table><tr><td>", "<font size=%d>", "x</td></table>"), ("<object>", "<b id=%d>", "</object>y"), ("<table><caption>", "<i class=c%d>", "</caption></table>"),
+           ("<p>", "<a href=%d>", "</p>x"), ("<div>", "<nobr id=n%d>", "</div>"), ("<b ", "a%d=1 ", ">"), ("<table>", "<tr><td>%d", "</table>"), ("<select>", "<option value=%d>", "</select>"),
+           ("<applet>", "<u id=%d><em id=e%d>", "</applet>"), ("<table><tr><th>", "<s id=%d>", "<th>z")]
 CONFIGS = [(b, ns, ft) for b in ("dom", "etree") for ns in (True, False) for ft in ((False, True) if b == "etree" else (False,))]
 
 
@@ -155,7 +160,9 @@ def _innermost_frame(tb):
 
 def build_input(case):
     if case.get("family") is not None:
-        s = case.get("prefix", "") + case["family"] * case["n"] + case.get("suffix", "")
+        fam = case["family"]
+        body = "".join(fam.replace("%d", str(i)) for i in range(case["n"])) if "%d" in fam else fam * case["n"]
+        s = case.get("prefix", "") + body + case.get("suffix", "")
         if case.get("as_bytes"):
             return s.encode("utf-8", "surrogatepass")
         return s
